@@ -116,7 +116,13 @@ def modulo(left: float | int, right: float | int) -> float | int:
     try:
         if isinstance(left, int) and isinstance(right, int):
             return left % right
-        return float(decimal.Decimal(str(left)) % decimal.Decimal(str(right)))
+        divisor = decimal.Decimal(str(right))
+        remainder = decimal.Decimal(str(left)) % divisor
+        # The remainder of two decimals has the sign of the dividend. Give it the
+        # sign of the divisor, like the remainder of two integers.
+        if remainder and remainder.is_signed() != divisor.is_signed():
+            remainder += divisor
+        return float(remainder)
     except ZeroDivisionError as err:
         raise LiquidTypeError(
             f"can't divide by {right}",
